@@ -109,4 +109,18 @@ SnapOK(divs, n, d, N, D) ==
         Same(S) == \E g \in S : g[1] * f[2] = f[1] * g[2] /\ NearestIn(S, fn, d, g)
     IN  /\ D > 0 /\ f[1] >= 0 /\ f[1] <= f[2]
         /\ (Same(AllowedDeclared(divs)) \/ Same(AllowedTriangle(divs)))
+----------------------------------------------------------------------------
+(* EXTENSION beyond C10's statement: the other operations of BpmList (anchored file).   *)
+(* otl: tempo list in offset form, a sequence of [t, bl] sorted by t (ticks of 1 us).    *)
+(* current_bpm(t): the last tempo point at or before t + 0.1 ms                          *)
+CurrentIx(otl, t) == LET S == { k \in DOMAIN otl : otl[k].t <= t + 100 } IN IF S = {} THEN 0 ELSE CHOOSE k \in S : \A j \in S : j <= k
+(* snap_offsets(nths, last): in every tempo section the times start + j * bl / nths before the next section *)
+SnapOffsets(otl, nths, last) ==
+    UNION { LET stop == IF k = Len(otl) THEN last ELSE otl[k+1].t
+                step == otl[k].bl \div nths IN
+            { otl[k].t + j * step : j \in 0..((stop - otl[k].t - 1) \div step) } : k \in DOMAIN otl }
+(* ave_bpm(last) = sum over sections of bpm x duration / (last - first): checked as  result * total = sum(bpm_k * dur_k) *)
+RECURSIVE WeightedSum(_, _, _)
+WeightedSum(otl, last, k) == IF k > Len(otl) THEN 0
+    ELSE otl[k].bpm100 * (((IF k = Len(otl) THEN last ELSE otl[k+1].t) - otl[k].t) \div 1000) + WeightedSum(otl, last, k + 1)
 =============================================================================
